@@ -1,2 +1,593 @@
-pub fn run(_args: &[&str]) -> String { "TODO".into() }
-pub fn getf(_args: &[&str]) -> String { "TODO".into() }
+//! RUN: the real portus runtime (`RunBuilder::run`) driven inline by a scripted transport.
+//! The line format, the script items and the trace are specified in RUN_PROTOCOL.md (normative).
+use crate::hex;
+use portus::ipc::{BackendBuilder, Ipc};
+use portus::lang::Scope;
+use portus::{CongAlg, Datapath, DatapathInfo, DatapathTrait, Flow, Report, RunBuilder};
+use std::collections::{BTreeSet, HashMap, HashSet, VecDeque};
+use std::panic::{catch_unwind, AssertUnwindSafe};
+use std::sync::atomic::{AtomicBool, AtomicUsize, Ordering};
+use std::sync::{Arc, Mutex, MutexGuard};
+
+// ---------------------------------------------------------------------------------------------
+// strict token parsing (nothing here may panic on malformed input)
+
+/// decimal: non-empty, ASCII digits only (no sign), must fit the target type
+fn dec<T: std::str::FromStr>(s: &str) -> Option<T> {
+    if s.is_empty() || !s.bytes().all(|b| b.is_ascii_digit()) {
+        return None;
+    }
+    s.parse().ok()
+}
+
+/// hex: `-` = empty, otherwise a non-empty even number of hex digits
+fn xhex(s: &str) -> Option<Vec<u8>> {
+    if s == "-" {
+        return Some(vec![]);
+    }
+    if s.is_empty() || s.len() % 2 != 0 || !s.bytes().all(|b| b.is_ascii_hexdigit()) {
+        return None;
+    }
+    crate::unhex(s)
+}
+
+fn xstr(s: &str) -> Option<String> {
+    String::from_utf8(xhex(s)?).ok()
+}
+
+fn is_pname(s: &str) -> bool {
+    !s.is_empty() && s.bytes().all(|b| b.is_ascii_alphanumeric() || b == b'_')
+}
+
+/// `&'static str`s are needed for algorithm and program names; leak each distinct string once
+fn intern(s: &str) -> &'static str {
+    static T: Mutex<BTreeSet<&'static str>> = Mutex::new(BTreeSet::new());
+    let mut t = T.lock().unwrap_or_else(|e| e.into_inner());
+    if let Some(x) = t.get(s) {
+        return x;
+    }
+    let l: &'static str = Box::leak(s.to_string().into_boxed_str());
+    t.insert(l);
+    l
+}
+
+type Upd = Vec<(String, u32)>;
+
+enum Cmd {
+    Sp(&'static str, Option<Upd>),
+    Uf(Upd),
+    Gf(String, String),          // field hex (as given), field
+    Gfp(String, String, String), // pname, field hex (as given), field
+}
+
+struct AlgCfg {
+    name: &'static str,
+    inst: bool,
+    progs: Vec<(&'static str, String)>,
+    nf: Vec<Cmd>,
+    or: Vec<Cmd>,
+}
+
+enum Uid {
+    Lit(u32),
+    Prog(String),
+}
+
+enum M {
+    Bytes(Vec<u8>),
+    Ms(u32, Uid, Vec<u64>),
+}
+
+enum Item {
+    Dgram(u32, Vec<M>),
+    RecvErr,
+    Stop,
+    Fail(usize),
+}
+
+fn parse_upd(s: &str) -> Option<Upd> {
+    s.split(';')
+        .map(|t| {
+            let (f, v) = t.split_once('=')?;
+            Some((xstr(f)?, dec(v)?))
+        })
+        .collect()
+}
+
+fn parse_cmd(s: &str) -> Option<Cmd> {
+    let p: Vec<&str> = s.split(':').collect();
+    match p[..] {
+        ["sp", n, u] if is_pname(n) => Some(Cmd::Sp(intern(n), if u == "-" { None } else { Some(parse_upd(u)?) })),
+        ["uf", u] => Some(Cmd::Uf(if u == "-" { vec![] } else { parse_upd(u)? })),
+        ["gf", f] => Some(Cmd::Gf(f.to_string(), xstr(f)?)),
+        ["gfp", n, f] if is_pname(n) => Some(Cmd::Gfp(n.to_string(), f.to_string(), xstr(f)?)),
+        _ => None,
+    }
+}
+
+fn parse_cmds(s: &str) -> Option<Vec<Cmd>> {
+    if s == "-" {
+        return Some(vec![]);
+    }
+    s.split(',').map(parse_cmd).collect()
+}
+
+fn parse_progs(s: &str) -> Option<Vec<(&'static str, String)>> {
+    if s == "-" {
+        return Some(vec![]);
+    }
+    s.split(',')
+        .map(|t| {
+            let (n, h) = t.split_once('=')?;
+            if !is_pname(n) {
+                return None;
+            }
+            Some((intern(n), xstr(h)?))
+        })
+        .collect()
+}
+
+fn header(typ: u16, len: usize, sid: u32) -> Vec<u8> {
+    let mut b = typ.to_le_bytes().to_vec();
+    b.extend((len as u16).to_le_bytes());
+    b.extend(sid.to_le_bytes());
+    b
+}
+
+fn ms_bytes(sid: u32, uid: u32, vals: &[u64]) -> Vec<u8> {
+    let mut b = header(1, 16 + 8 * vals.len(), sid);
+    b.extend(uid.to_le_bytes());
+    b.extend((vals.len() as u32).to_le_bytes());
+    for v in vals {
+        b.extend(v.to_le_bytes());
+    }
+    b
+}
+
+fn parse_msg(s: &str) -> Option<M> {
+    let p: Vec<&str> = s.split('.').collect();
+    match p[..] {
+        ["CR", sid, a, b, c, d, e, f, alg] => {
+            let name = xhex(alg)?;
+            if name.len() > 64 {
+                return None;
+            }
+            let mut m = header(0, 96, dec(sid)?);
+            for x in [a, b, c, d, e, f] {
+                m.extend(dec::<u32>(x)?.to_le_bytes());
+            }
+            m.extend(&name);
+            m.resize(96, 0);
+            Some(M::Bytes(m))
+        }
+        ["MS", sid, uid, vals] => {
+            let uid = match uid.strip_prefix("u:") {
+                Some(n) if is_pname(n) => Uid::Prog(n.to_string()),
+                Some(_) => return None,
+                None => Uid::Lit(dec(uid)?),
+            };
+            let vals: Vec<u64> = if vals == "-" { vec![] } else { vals.split(';').map(dec).collect::<Option<_>>()? };
+            if 16 + 8 * vals.len() > 0xffff {
+                return None;
+            }
+            Some(M::Ms(dec(sid)?, uid, vals))
+        }
+        ["RD", id] => {
+            let mut m = header(5, 12, 0);
+            m.extend(dec::<u32>(id)?.to_le_bytes());
+            Some(M::Bytes(m))
+        }
+        ["RAW", h] => Some(M::Bytes(xhex(h)?)),
+        _ => None,
+    }
+}
+
+fn parse_item(t: &str) -> Option<Item> {
+    match t {
+        "E" => return Some(Item::RecvErr),
+        "X" => return Some(Item::Stop),
+        _ => {}
+    }
+    if let Some(k) = t.strip_prefix("SF") {
+        return Some(Item::Fail(dec(k)?));
+    }
+    let (a, ms) = t.split_once(':')?;
+    Some(Item::Dgram(dec(a)?, ms.split('+').map(parse_msg).collect::<Option<_>>()?))
+}
+
+fn parse(args: &[&str]) -> Option<(Vec<AlgCfg>, VecDeque<Item>)> {
+    let mut algs = vec![];
+    let mut i = 0;
+    while args.get(i) == Some(&"ALG") {
+        let a = args.get(i + 1..i + 9)?;
+        if a[2] != "PROGS" || a[4] != "NF" || a[6] != "OR" {
+            return None;
+        }
+        algs.push(AlgCfg {
+            name: intern(&xstr(a[0])?),
+            inst: match a[1] {
+                "1" => true,
+                "0" => false,
+                _ => return None,
+            },
+            progs: parse_progs(a[3])?,
+            nf: parse_cmds(a[5])?,
+            or: parse_cmds(a[7])?,
+        });
+        i += 9;
+    }
+    if algs.is_empty() || algs.len() > 5 || !algs[0].inst || args.get(i) != Some(&"SCRIPT") {
+        return None;
+    }
+    Some((algs, args[i + 1..].iter().map(|t| parse_item(t)).collect::<Option<_>>()?))
+}
+
+// ---------------------------------------------------------------------------------------------
+// shared observation state
+
+enum Ev {
+    In(u32, String), // install sent to addr; rendered uid
+    Dr(usize),
+    S(String),
+}
+
+#[derive(Default)]
+struct St {
+    log: Vec<Ev>,
+    uid2p: HashMap<u32, String>,
+    p2uid: HashMap<String, u32>,
+    flows: usize,
+    closes: usize,
+}
+
+type Sh = Arc<Mutex<St>>;
+
+fn lk(s: &Sh) -> MutexGuard<'_, St> {
+    s.lock().unwrap_or_else(|e| e.into_inner())
+}
+
+fn say(s: &Sh, line: String) {
+    lk(s).log.push(Ev::S(line));
+}
+
+fn show_uid(st: &St, uid: u32) -> String {
+    match st.uid2p.get(&uid) {
+        Some(p) => format!("u:{}", p),
+        None => format!("?{}", uid),
+    }
+}
+
+// ---------------------------------------------------------------------------------------------
+// the scripted transport
+
+struct Sock {
+    script: Mutex<VecDeque<Item>>,
+    fail: AtomicUsize,
+    flag: Arc<AtomicBool>,
+    images: Vec<(String, Vec<u8>)>,
+    sh: Sh,
+}
+
+impl Ipc for Sock {
+    type Addr = u32;
+    fn name() -> String {
+        "scripted".into()
+    }
+
+    fn send(&self, msg: &[u8], to: &u32) -> portus::Result<()> {
+        let mut st = lk(&self.sh);
+        let typ = if msg.len() >= 2 { u16::from_le_bytes([msg[0], msg[1]]) } else { 0xffff };
+        let at = |o: usize| u32::from_le_bytes([msg[o], msg[o + 1], msg[o + 2], msg[o + 3]]);
+        let ev = if typ == 2 && msg.len() >= 20 {
+            let uid = at(8);
+            if let Some((p, _)) = self.images.iter().find(|(_, im)| im[..] == msg[20..]) {
+                st.uid2p.insert(uid, p.clone());
+                st.p2uid.insert(p.clone(), uid);
+            }
+            Ev::In(*to, show_uid(&st, uid))
+        } else if typ == 4 && msg.len() >= 16 {
+            Ev::S(format!("TX {} CP {} {} {}", to, at(4), show_uid(&st, at(8)), hex(&msg[16..])))
+        } else if typ == 3 && msg.len() >= 12 {
+            Ev::S(format!("TX {} UF {} {}", to, at(4), hex(&msg[12..])))
+        } else {
+            Ev::S(format!("TX {} OT {}", to, hex(msg)))
+        };
+        let f = self.fail.load(Ordering::SeqCst);
+        if f > 0 {
+            self.fail.store(f - 1, Ordering::SeqCst);
+            st.log.push(Ev::S(format!("TXFAIL {}", to)));
+            return Err(portus::Error("scripted send failure".into()));
+        }
+        st.log.push(ev);
+        Ok(())
+    }
+
+    fn recv(&self, buf: &mut [u8]) -> portus::Result<(usize, u32)> {
+        let mut sc = self.script.lock().unwrap_or_else(|e| e.into_inner());
+        loop {
+            match sc.pop_front() {
+                Some(Item::Fail(k)) => self.fail.store(k, Ordering::SeqCst),
+                None | Some(Item::Stop) => {
+                    self.flag.store(false, Ordering::SeqCst);
+                    return Err(portus::Error("stop".into()));
+                }
+                Some(Item::RecvErr) => return Err(portus::Error("recv error".into())),
+                Some(Item::Dgram(a, ms)) => {
+                    let mut d = vec![];
+                    for m in ms {
+                        match m {
+                            M::Bytes(b) => d.extend(b),
+                            M::Ms(sid, uid, vals) => {
+                                let uid = match uid {
+                                    Uid::Lit(u) => u,
+                                    Uid::Prog(p) => lk(&self.sh).p2uid.get(&p).copied().unwrap_or(0),
+                                };
+                                d.extend(ms_bytes(sid, uid, &vals));
+                            }
+                        }
+                    }
+                    let n = d.len().min(1024).min(buf.len());
+                    buf[..n].copy_from_slice(&d[..n]);
+                    return Ok((n, a));
+                }
+            }
+        }
+    }
+
+    fn close(&mut self) -> portus::Result<()> {
+        lk(&self.sh).closes += 1;
+        Ok(())
+    }
+}
+
+// ---------------------------------------------------------------------------------------------
+// algorithms and flows
+
+/// `CongAlg::name()` has no `self`: one type per configured algorithm, names looked up by index
+static NAMES: Mutex<[&'static str; 5]> = Mutex::new([""; 5]);
+
+struct Alg<const N: usize> {
+    cfg: Arc<AlgCfg>,
+    sh: Sh,
+}
+
+struct Fl {
+    id: usize,
+    dp: Datapath<Sock>,
+    cfg: Arc<AlgCfg>,
+    cur: Option<Scope>,
+    scopes: HashMap<String, Scope>,
+    sh: Sh,
+}
+
+impl<const N: usize> CongAlg<Sock> for Alg<N> {
+    type Flow = Fl;
+
+    fn name() -> &'static str {
+        NAMES.lock().unwrap_or_else(|e| e.into_inner())[N]
+    }
+
+    fn datapath_programs(&self) -> HashMap<&'static str, String> {
+        self.cfg.progs.iter().cloned().collect()
+    }
+
+    fn new_flow(&self, control: Datapath<Sock>, i: DatapathInfo) -> Fl {
+        let id = {
+            let mut st = lk(&self.sh);
+            st.flows += 1;
+            st.flows
+        };
+        say(
+            &self.sh,
+            format!(
+                "NF {} {} - {} {} {} {} {} {} {} h={}",
+                id,
+                hex(<Self as CongAlg<Sock>>::name().as_bytes()),
+                i.sock_id,
+                i.init_cwnd,
+                i.mss,
+                i.src_ip,
+                i.src_port,
+                i.dst_ip,
+                i.dst_port,
+                control.get_sock_id()
+            ),
+        );
+        let mut f = Fl { id, dp: control, cfg: self.cfg.clone(), cur: None, scopes: HashMap::new(), sh: self.sh.clone() };
+        f.exec(false, None);
+        f
+    }
+}
+
+fn err_kind(e: &str) -> &'static str {
+    if e.contains("this report does not match the current scope") {
+        "stale"
+    } else if e.contains("is not a report variable") {
+        "invalidtype"
+    } else if e.contains("in scope but was not found in the report") {
+        "invalidreport"
+    } else if e.contains("was not found in this scope") {
+        "notfound"
+    } else {
+        "other"
+    }
+}
+
+fn gf_res(rep: Option<&Report>, sc: Option<&Scope>, field: &str) -> String {
+    match (rep, sc) {
+        (None, _) => "NOREPORT".into(),
+        (_, None) => "NOSCOPE".into(),
+        (Some(r), Some(sc)) => match r.get_field(field, sc) {
+            Ok(v) => format!("OK {}", v),
+            Err(e) => format!("ERR {}", err_kind(&e.0)),
+        },
+    }
+}
+
+fn as_refs(u: &Upd) -> Vec<(&str, u32)> {
+    u.iter().map(|(f, v)| (f.as_str(), *v)).collect()
+}
+
+impl Fl {
+    /// run the policy commands of `new_flow` (`rep` = None) or `on_report`
+    fn exec(&mut self, in_or: bool, rep: Option<&Report>) {
+        let cfg = self.cfg.clone();
+        for c in if in_or { &cfg.or } else { &cfg.nf } {
+            let line = match c {
+                Cmd::Sp(p, upd) => {
+                    let v = upd.as_ref().map(as_refs);
+                    match self.dp.set_program(p, v.as_deref()) {
+                        Ok(sc) => {
+                            let l = format!("SP {} OK {}", p, show_uid(&lk(&self.sh), sc.program_uid));
+                            self.scopes.insert(p.to_string(), sc.clone());
+                            self.cur = Some(sc);
+                            l
+                        }
+                        Err(_) => format!("SP {} ERR", p),
+                    }
+                }
+                Cmd::Uf(u) => match &self.cur {
+                    None => "UF NOSCOPE".to_string(),
+                    Some(sc) => match self.dp.update_field(sc, &as_refs(u)) {
+                        Ok(()) => "UF OK".to_string(),
+                        Err(_) => "UF ERR".to_string(),
+                    },
+                },
+                Cmd::Gf(h, f) => format!("GF {} {}", h, gf_res(rep, self.cur.as_ref(), f)),
+                Cmd::Gfp(p, h, f) => format!("GFP {} {} {}", p, h, gf_res(rep, self.scopes.get(p), f)),
+            };
+            say(&self.sh, line);
+        }
+    }
+}
+
+impl Flow for Fl {
+    fn on_report(&mut self, sock_id: u32, m: Report) {
+        let l = format!("RP {} {} {}", self.id, sock_id, show_uid(&lk(&self.sh), m.program_uid));
+        say(&self.sh, l);
+        self.exec(true, Some(&m));
+    }
+
+    fn close(&mut self) {
+        say(&self.sh, format!("CL {}", self.id));
+    }
+}
+
+impl Drop for Fl {
+    fn drop(&mut self) {
+        lk(&self.sh).log.push(Ev::Dr(self.id));
+    }
+}
+
+// ---------------------------------------------------------------------------------------------
+
+/// canonical order: install batches (`nprogs` consecutive installs to one address) sorted by their
+/// rendering, maximal runs of `DR` sorted by flow number
+fn render(log: &[Ev], nprogs: usize) -> Vec<String> {
+    let mut out = vec![];
+    let mut i = 0;
+    while i < log.len() {
+        match &log[i] {
+            Ev::S(s) => {
+                out.push(s.clone());
+                i += 1;
+            }
+            Ev::Dr(_) => {
+                let mut ids = vec![];
+                while let Some(Ev::Dr(d)) = log.get(i) {
+                    ids.push(*d);
+                    i += 1;
+                }
+                ids.sort();
+                out.extend(ids.iter().map(|d| format!("DR {}", d)));
+            }
+            Ev::In(a, _) => {
+                let mut batch = vec![];
+                while batch.len() < nprogs.max(1) {
+                    match log.get(i) {
+                        Some(Ev::In(a2, r)) if a2 == a => {
+                            batch.push(r.clone());
+                            i += 1;
+                        }
+                        _ => break,
+                    }
+                }
+                batch.sort();
+                out.extend(batch.iter().map(|r| format!("TX {} IN {}", a, r)));
+            }
+        }
+    }
+    out
+}
+
+pub fn run(args: &[&str]) -> String {
+    let (algs, items) = match parse(args) {
+        Some(x) => x,
+        None => return "BADARG".into(),
+    };
+    // image -> pname (only algorithms with an instance contribute programs); a program that does
+    // not compile (or makes the compiler panic) has no image: `run()` will fail on it by itself
+    let mut images = vec![];
+    let mut pnames = HashSet::new();
+    for a in algs.iter().filter(|a| a.inst) {
+        for (p, src) in &a.progs {
+            pnames.insert(*p);
+            if let Ok(Ok((img, _))) = catch_unwind(|| portus::lang::compile_and_serialize(src.as_bytes(), &[])) {
+                images.push((p.to_string(), img));
+            }
+        }
+    }
+    let flag = Arc::new(AtomicBool::new(true));
+    let sh: Sh = Arc::new(Mutex::new(St::default()));
+    let sock = Sock { script: Mutex::new(items), fail: AtomicUsize::new(0), flag: flag.clone(), images, sh: sh.clone() };
+    {
+        let mut n = NAMES.lock().unwrap_or_else(|e| e.into_inner());
+        *n = [""; 5];
+        for (i, a) in algs.iter().enumerate() {
+            n[i] = a.name;
+        }
+    }
+    let algs: Vec<Arc<AlgCfg>> = algs.into_iter().map(Arc::new).collect();
+    fn mk<const N: usize>(algs: &[Arc<AlgCfg>], sh: &Sh) -> Option<Alg<N>> {
+        let c = algs.get(N)?;
+        if c.inst {
+            Some(Alg { cfg: c.clone(), sh: sh.clone() })
+        } else {
+            None
+        }
+    }
+    let default = match mk::<0>(&algs, &sh) {
+        Some(a) => a,
+        None => return "BADARG".into(),
+    };
+    let h = flag.clone();
+    let res = catch_unwind(AssertUnwindSafe(|| {
+        macro_rules! add {
+            ($rb:expr, $n:literal) => {
+                $rb.additional_alg::<Alg<$n>, Option<Alg<$n>>>(mk::<$n>(&algs, &sh))
+            };
+        }
+        let rb = RunBuilder::new(BackendBuilder { sock }).default_alg(default);
+        match algs.len() {
+            1 => rb.with_stop_handle(h).run(),
+            2 => add!(rb, 1).with_stop_handle(h).run(),
+            3 => add!(add!(rb, 1), 2).with_stop_handle(h).run(),
+            4 => add!(add!(add!(rb, 1), 2), 3).with_stop_handle(h).run(),
+            _ => add!(add!(add!(add!(rb, 1), 2), 3), 4).with_stop_handle(h).run(),
+        }
+    }));
+    let r = match res {
+        Ok(Ok(())) => "OK",
+        Ok(Err(_)) => "ERR",
+        Err(_) => "PANIC",
+    };
+    let strong = Arc::strong_count(&flag);
+    let st = lk(&sh);
+    let mut out = render(&st.log, pnames.len());
+    out.push(format!("RES {} closes={} strong={}", r, st.closes, strong));
+    out.join(" | ")
+}
+
+pub fn getf(_args: &[&str]) -> String {
+    "TODO".into()
+}
